@@ -629,10 +629,12 @@ pub fn check_c17(
         }
     }
     // rule 4: waiters
-    let released: Vec<&Event> = out.events.iter().filter(|e| e.kind == Ev::WaiterReleased).collect();
+    let all_released: Vec<&Event> = out.events.iter().filter(|e| e.kind == Ev::WaiterReleased).collect();
+    // (b = 2, 3 are waiters that never got a result: see exec.rs)
+    let released: Vec<&Event> = all_released.iter().copied().filter(|e| e.b < 2).collect();
     let end_t = out.events.last().map(|e| e.t).unwrap_or(0);
     for (i, at) in sd.waiters.iter().enumerate() {
-        let rel = released.iter().find(|e| e.a == i as u64);
+        let rel = all_released.iter().find(|e| e.a == i as u64);
         match rel {
             None => {
                 // a waiter that was due to start polling before the end of
@@ -646,6 +648,11 @@ pub fn check_c17(
                         });
                     }
                 }
+            }
+            Some(e) if e.b == 3 => {
+                // gave up of its own accord before shutdown had finished:
+                // nothing is owed to it
+                probes.push("waiter_gave_up");
             }
             Some(e) if e.b == 2 => {
                 v.push(Violation {
